@@ -11,12 +11,12 @@ SPEC = {'id': 'C20',
  'ties': [(_P, _N + n) for n in ['table_disciplined', 'table_covered', 'table_populated', 'tracked_types_present']],
  'parallel': 4,
  'harness': [
-     {'pkg': 'broker', 'test': 'TestVerifC20Broker$', 'race': True, 'timeout': '10m'},
-     {'pkg': 'proxy/lib', 'test': 'TestVerifC20Proxy$', 'race': True, 'checklinkname': True, 'timeout': '10m'},
-     {'pkg': 'common/turbotunnel', 'test': 'TestVerifC20Turbotunnel$', 'race': True, 'timeout': '10m'},
-     {'pkg': 'client/lib', 'test': 'TestVerifC20Client$', 'race': True, 'checklinkname': True, 'timeout': '10m'},
-     {'pkg': 'server/lib', 'test': 'TestVerifC20Server$', 'race': True, 'checklinkname': True, 'timeout': '10m'},
-     {'pkg': 'common/event', 'test': 'TestVerifC20Event$', 'race': True, 'checklinkname': True, 'timeout': '10m'},
+     {'pkg': 'broker', 'test': 'TestVerifC20Broker$', 'race': True, 'timeout': '5m'},
+     {'pkg': 'proxy/lib', 'test': 'TestVerifC20Proxy$', 'race': True, 'checklinkname': True, 'timeout': '5m'},
+     {'pkg': 'common/turbotunnel', 'test': 'TestVerifC20Turbotunnel$', 'race': True, 'timeout': '5m'},
+     {'pkg': 'client/lib', 'test': 'TestVerifC20Client$', 'race': True, 'checklinkname': True, 'timeout': '5m'},
+     {'pkg': 'server/lib', 'test': 'TestVerifC20Server$', 'race': True, 'checklinkname': True, 'timeout': '5m'},
+     {'pkg': 'common/event', 'test': 'TestVerifC20Event$', 'race': True, 'checklinkname': True, 'timeout': '5m'},
      # the workloads of the other checks, re-run under the race detector; only race reports count here
      {'pkg': 'broker', 'test': 'TestVerifC04$', 'race': True, 'race_only': True, 'tier': 'quick', 'timeout': '15m'},
      {'pkg': 'broker', 'test': 'TestVerifC14$', 'race': True, 'race_only': True, 'tier': 'quick', 'timeout': '30m'},
